@@ -131,7 +131,7 @@ def h_rendezvous(ctx, plan):
   ctx.witness('done')
 
 
-def h_lifecycle(ctx, ndef, plan, in_handler=()):
+def h_lifecycle(ctx, ndef, plan, in_handler=(), requit=None):
   """plan letters: G goUp, 0/1 release deferral i, Q quit (via _quit, as quit() does on its helper thread)"""
   pc, core = fresh_core(ctx)
   old_core = pc.core; pc.core = core
@@ -149,8 +149,19 @@ def h_lifecycle(ctx, ndef, plan, in_handler=()):
           defs[k](); released.add(k)
     if in_handler: core.addListenerByName('GoingUpEvent', during_going_up, priority=5)
     core.addListenerByName('GoingUpEvent', lambda e: log.append('late GoingUp listener'), priority=-5)
+    if requit:
+      # quit() asked for again while the shutdown is in progress (from a GoingDown / Down listener) or after it: still one GoingDown, one Down
+      again = []
+      def requit_now(e):
+        if not again:
+          again.append(1); core.quit()
+      if requit == 'in_going_down': core.addListenerByName('GoingDownEvent', requit_now, priority=5)
+      elif requit == 'in_going_down_late': core.addListenerByName('GoingDownEvent', requit_now, priority=-5)
+      elif requit == 'in_down': core.addListenerByName('DownEvent', requit_now, priority=5)
     for i, op in enumerate(plan):
-      if op == 'G' and not gone_up:
+      if op == 'q':
+        core.quit()            # a second request after the shutdown has completed (same thread, not starting up: runs _quit directly)
+      elif op == 'G' and not gone_up:
         core.goUp(); gone_up = True
       elif op in '01':
         k = int(op)
@@ -190,6 +201,8 @@ def obligations(tier):
   for nd in (0, 1, 2):
     for p in (['G', 'GQ'] if nd == 0 else ['G0', '0G', 'G0Q', '0GQ', 'GQ'] if nd == 1 else ['G01', 'G10', '0G1', '01G', '1G0Q', 'G01Q', 'G0Q']):
       life.append(dict(ndef=nd, plan=p))
+  life += [dict(ndef=0, plan='GQ', requit='in_going_down'), dict(ndef=0, plan='GQ', requit='in_going_down_late'), dict(ndef=0, plan='GQ', requit='in_down'),
+           dict(ndef=0, plan='GQq'), dict(ndef=1, plan='G0Q', requit='in_going_down'), dict(ndef=1, plan='G0Qq', requit='in_down')]
   life += [dict(ndef=1, plan='G', in_handler=(0,)), dict(ndef=2, plan='G1', in_handler=(0,)), dict(ndef=2, plan='1G', in_handler=(0,)),
            dict(ndef=2, plan='G', in_handler=(0, 1)), dict(ndef=1, plan='GQ', in_handler=(0,))]
   BOUNDS[tier] = dict(rendezvous_histories=plans, legend="R register(symbolic name), W call_when_ready(symbolic dependency subset of 3 names, callback "
